@@ -12,6 +12,24 @@ def ctl_c02(e, g):
     return None
 
 
+def sibling_control(match_keys, vary_key):
+    """control = a sibling transition from the same pre-state that the specification accepts, equal to the
+    failing one on `match_keys` and different on `vary_key` (the property's own dimension relaxed)."""
+    def f(e, g):
+        if not e['exp']['ok']:
+            return None
+        a = e['act']
+        for ei in g.out[e['_pre']]:
+            o = g.edges[ei]
+            b = o['act']
+            if o is e or not o['exp']['ok'] or b['name'] != a['name']:
+                continue
+            if all(b.get(k) == a.get(k) for k in match_keys) and b.get(vary_key) != a.get(vary_key):
+                return [b]
+        return None
+    return f
+
+
 PROPS = {
     "C02": {
         "title": "Each message is approved once and executed once, only by its destination",
@@ -32,6 +50,25 @@ PROPS = {
                 "distinct = distinct (abstract pre-state, action) pairs; every one changes or probes message status",
         "assumptions": ["soroban-env-host test mode implements on-chain semantics (rollback, require_auth, crypto)",
                         "bounds: 3 message keys x 2 contents, batches of <= 2 messages, one signer set"],
+    },
+    "C03": {
+        "title": "Rotation installs only well-formed sets, authorised by the latest signers",
+        "policy": {
+            "guards": ["wellformed", "duplicate", "latest_or_bypass", "signatures", "set_known", "nonempty_list"],
+            "fields": ["epoch", "hashByEpoch", "epochOf"],
+            "events": ["signers_rotated"],
+            "rets": [],
+        },
+        "jobs": [
+            {"kind": "graph", "spec": "MC_C03", "module": "Gateway", "evkinds": GW_EVENTS,
+             "need": ["RotateSigners/ok", "RotateSigners/wellformed", "RotateSigners/duplicate",
+                      "RotateSigners/latest_or_bypass", "Construct/ok", "Construct/wellformed", "Construct/duplicate"],
+             "control": sibling_control(["proof", "bypass", "auth"], "new")},
+        ],
+        "level_text": "TLC proves epoch +1 / inverse lookups / well-formed-and-fresh / frame on every reachable state of the bounded instance; every transition (13 candidate shapes x proof kinds x bypass x operator auth over all histories of <= 4 rotations, and 20 constructor lists) is executed against the real gateway and epoch(), signers_hash_by_epoch(0..epoch+1), epoch_by_signers_hash(every catalogue hash) are compared.",
+        "rule": "cases = transitions of the bounded TLC instance replayed against the contracts; distinct = distinct (abstract pre-state, action) pairs; each is a rotation or construction attempt",
+        "assumptions": ["soroban-env-host test mode implements on-chain semantics", "u128 weights on a lattice: abstract w -> w*(2^128-1)/15, so overflow and threshold comparisons coincide exactly",
+                        "bounds: 13 candidate sets, <= 5 epochs, retention 1, delay 0"],
     },
 }
 
